@@ -41,6 +41,33 @@ def envRecvOp (args : List String) : String :=
     " ".intercalate (r.1.map showYield)
   | _, _, _, _ => "bad-op"
 
+/-- cut `flat` at the given offsets (ascending, inside the string) -/
+def segmentAt (flat : Bytes) (cuts : List Nat) : List Bytes :=
+  let rec go (rest : Bytes) (pos : Nat) : List Nat → List Bytes
+    | [] => if rest.isEmpty then [] else [rest]
+    | c :: cs =>
+      let n := c - pos
+      if n = 0 ∨ n ≥ rest.length then go rest pos cs
+      else rest.take n :: go (rest.drop n) c cs
+  go flat 0 cuts
+
+def showRErr : RErr → String
+  | .eof => "eof" | .unexpectedEOF => "ueof" | .other => "err"
+  | .coded c w => s!"coded:{c}:{if w then 1 else 0}"
+
+/-- `env.drain limit=N tail=T flat=HEX seg=CUTS wd=B`: `drainUpTo` on that transport, at the
+    implementation level (the reads the script allows) -/
+def envDrainOp (args : List String) : String :=
+  match (kv args "limit").bind String.toNat?, (kv args "tail").bind parseTail, (kv args "flat").bind hexArg, kv args "seg", kv args "wd" with
+  | some limit, some tail, some flat, some seg, some wd =>
+    let cuts := if seg == "-" then [] else (seg.splitOn ",").filterMap String.toNat?
+    let s : Script := { chunks := segmentAt flat cuts, tail := tail, withData := wd == "1" }
+    match drain limit s with
+    | .atEnd => "atEnd"
+    | .more => "more"
+    | .failed e => "failed:" ++ showRErr e
+  | _, _, _, _, _ => "bad-op"
+
 def envWriteOp (args : List String) : String :=
   match kv args "comp", (kv args "min").bind String.toInt?, kv args "msgs", kv args "extra" with
   | some comp, some min, some msgs, some extra =>
@@ -432,6 +459,7 @@ def step (line : String) : String :=
     | some l, some h, some hd => if connectEncodeConsistent l h hd then "ok" else "bad"
     | _, _, _ => "bad-op"
   | "env.recv" :: args => envRecvOp args
+  | "env.drain" :: args => envDrainOp args
   | "env.write" :: args => envWriteOp args
   | "serve" :: args => ProtoOps.serveOp args
   | "cdec" :: args => ProtoOps.cdecOp args
